@@ -282,6 +282,20 @@ func semFeatures(k int, h []rng) string {
 	return strings.Join(keys, "+")
 }
 
+// semSig is the signature of a failure that survives canonical spelling. A selected offer that no
+// range literally covers is one root cause per acceptability predicate (media types / the token
+// predicate shared by charsets, encodings and languages), whatever the rest of the header is.
+func semSig(k int, mh []rng, mv *verdict) string {
+	if mv.clause == "range-does-not-cover-offer" {
+		site := "Accepts"
+		if k != kMedia {
+			site = "AcceptsCharsets+AcceptsEncodings+AcceptsLanguages"
+		}
+		return "C09|" + mv.clause + "|" + site + "|" + mv.decided
+	}
+	return "C09|" + mv.clause + "|" + kindFn[k] + "|" + mv.decided + "|" + semFeatures(k, mh)
+}
+
 // classify turns one rejected case into violations with stable signatures.
 func (s *sess) classify(k int, h []rng, offers []offer, v *verdict) {
 	emit := func(sig string, mh []rng, mofs []offer, mv *verdict) {
@@ -304,7 +318,7 @@ func (s *sess) classify(k int, h []rng, offers []offer, v *verdict) {
 			if mv == nil {
 				mv = cv
 			}
-			emit("C09|"+mv.clause+"|"+kindFn[k]+"|"+mv.decided+"|"+semFeatures(k, mh), mh, mofs, mv)
+			emit(semSig(k, mh, mv), mh, mofs, mv)
 			return
 		}
 	}
@@ -340,7 +354,7 @@ func (s *sess) classify(k int, h []rng, offers []offer, v *verdict) {
 	_, _, p := build(k, mh, mofs, 0)
 	if p == 0 {
 		// the minimum is canonical: a semantic failure that only shows once other ranges are gone
-		emit("C09|"+mv.clause+"|"+kindFn[k]+"|"+mv.decided+"|"+semFeatures(k, mh), mh, mofs, mv)
+		emit(semSig(k, mh, mv), mh, mofs, mv)
 		return
 	}
 	if p&(p-1) == 0 {
